@@ -790,12 +790,14 @@ struct Digit {
                     if (m_shift < positive_exp) {
                         b_int <<= (positive_exp - m_shift);
                     } else {
+                        // Sticky bit: set only if a nonzero bit is shifted out.
+                        round_up = ((m_shift - positive_exp) > first_shift);
                         b_int >>= (m_shift - positive_exp);
                     }
 
                     if (drop != 0) {
-                        round_up = true;
-                        bigIntDropDigits(b_int, drop);
+                        // ... or if a nonzero digit is dropped.
+                        round_up |= bigIntDropDigits(b_int, drop);
                     }
                 } else {
                     SizeT32 shift   = 0;
@@ -952,17 +954,20 @@ struct Digit {
     }
 
     template <typename BigInt_T>
-    inline static void bigIntDropDigits(BigInt_T &b_int, SizeT32 drop) noexcept {
+    inline static bool bigIntDropDigits(BigInt_T &b_int, SizeT32 drop) noexcept {
         using DigitConst = DigitUtils::DigitConst<BigInt_T::SizeOfType()>;
+        bool has_remainder = false;
 
         while (drop >= DigitConst::MaxPowerOfFive) {
-            b_int /= DigitConst::GetPowerOfFive(DigitConst::MaxPowerOfFive);
+            has_remainder |= (b_int.Divide(DigitConst::GetPowerOfFive(DigitConst::MaxPowerOfFive)) != 0);
             drop -= DigitConst::MaxPowerOfFive;
         }
 
         if (drop != 0) {
-            b_int /= DigitConst::GetPowerOfFive(drop);
+            has_remainder |= (b_int.Divide(DigitConst::GetPowerOfFive(drop)) != 0);
         }
+
+        return has_remainder;
     }
 
     template <typename Stream_T>
